@@ -10,5 +10,6 @@ ASSUME LET es == SetToSeq(Exprs) rs == SetToSeq(RefLists) IN
           [j \in 1..Len(es) |-> [kind |-> "expr", ops |-> es[j], vals |-> [i \in 1..Len(es[j]) |-> Values(es[j][i])]]]
           \* every operation of the table on its own, with its own operands
           \o [j \in 1..Len(OpTable) |-> [kind |-> "sweep", ops |-> <<OpTable[j]>>, vals |-> <<Values(OpTable[j])>>]]
+          \o [j \in 1..Len(LocAttrs) |-> [kind |-> "locattr", at |-> LocAttrs[j].at, code |-> LocAttrs[j].code]]
           \o [j \in 1..Len(rs) |-> [kind |-> "abbrev", refs |-> rs[j], distinct |-> Distinct(rs[j], {})]])
 =============================================================================
